@@ -1,7 +1,7 @@
 import Cpppo.Model.Wire
 import Cpppo.Model.RefCodec
 import Cpppo.Model.Server
-import Cpppo.Model.Client
+import Cpppo.Model.IopClient
 import Cpppo.Driver.Logix
 /-!
 driver for C14 (reference codec, server model, generic client model)
@@ -162,7 +162,7 @@ def runE2E (fixed : Bool) : Srv.St → List (Srv.Rnd × Ref.Ctx × Ref.Msg) → 
 /-! generic client operations (what a Logix client library offers) -/
 
 /-- `r|path|count`  `w|path|ty|count|hex,hex…`  `mr|path&path…`  `mw|path=ty=hex&…` -/
-def parseOp (s : String) : Option Client.Op :=
+def parseOp (s : String) : Option IopClient.Op :=
   match splitOn s '|' with
   | ["r", p, n] => do pure (.read (← Driver.Logix.parsePath p) (← n.toNat?))
   | ["w", p, ty, n, hs] => do
@@ -175,13 +175,13 @@ def parseOp (s : String) : Option Client.Op :=
       | _ => none))
   | _ => none
 
-def showRes (r : Client.Res) : String :=
+def showRes (r : IopClient.Res) : String :=
   s!"{r.status}:" ++ (match r.ty with | some t => toString t.code | none => "-") ++ ":" ++ showList (r.vals.map showVal)
 
-def runOps : Dev → List Client.Op → List String
+def runOps : Dev → List IopClient.Op → List String
   | _, [] => []
   | d, op :: rest =>
-    let (d', rs) := Client.run d op
+    let (d', rs) := IopClient.run d op
     ("&".intercalate (rs.map showRes) ++ "@" ++ Driver.Logix.dump d') :: runOps d' rest
 
 def join (l : List String) : String := if l.isEmpty then "-" else ";".intercalate l
